@@ -1212,16 +1212,12 @@ def add_invariant_checks(cls: ClassT) -> None:
             init_func = value
             continue
 
-        if (
-            name != "__setattr__"
-            and InvariantCheckEvent.CALL not in last_invariant.check_on
-        ):
+        # A member needs the checks if *any* invariant of the class applies to it, not only the last one:
+        # when the invariants are inherited, the members of the sub-class are wrapped in a single pass.
+        if name != "__setattr__" and not cls.__invariants_on_call__:  # type: ignore
             continue
 
-        if (
-            name == "__setattr__"
-            and InvariantCheckEvent.SETATTR not in last_invariant.check_on
-        ):
+        if name == "__setattr__" and not cls.__invariants_on_setattr__:  # type: ignore
             continue
 
         if (
